@@ -104,8 +104,8 @@ def apply_atoms(wt, atoms):
             os.chmod(fp, 0o755)
         cur = f
         if "ren" in ks:
-            wt.rename_one(f, "d/" + f)
-            cur = "d/" + f
+            wt.rename_one(f, "d/%sr" % f)              # new parent AND new name
+            cur = "d/%sr" % f
         if "del" in ks:
             wt.remove([cur], keep_files=False, force=True)
         if "miss" in ks:
@@ -180,7 +180,7 @@ def abstract(pr):
             path, kind, content, ex = ver.pop(fid)
             files[f] = _rec(f, True, path, kind, content, ex)
         else:
-            hit = next((u for u in unv if u[0] in (f, "d/" + f)), None)
+            hit = next((u for u in unv if u[0] in (f, "d/%sr" % f)), None)
             if hit is not None:
                 unv.remove(hit)
                 files[f] = _rec(f, False, hit[0], hit[1], hit[2], hit[3])
